@@ -111,6 +111,10 @@ def implied(cond, truth):
     k = n.get("k")
     if k == "un" and n.get("op") == "!":
         return implied(n["ch"][0], not truth)
+    if k == "ref" and n.get("flagdef") is not None:
+        # a flag local that stands for a condition (facts.Function._find_flagdefs)
+        p = apath(n)
+        return implied(n["flagdef"], truth) | ({("true" if truth else "false", p)} if p is not None else set())
     if k == "bin":
         op = n.get("op")
         a, b = n["ch"][0], n["ch"][1]
